@@ -30,3 +30,11 @@ impl FromSpecImpl<ExprError> for RuntimeErrorKind {
     open spec fn obeys_from_spec() -> bool { true }
     closed spec fn from_spec(e: ExprError) -> RuntimeErrorKind { RuntimeErrorKind::ExprError(e) }
 }
+// [A-std] std's `impl<T> From<T> for T` is the identity conversion (used by `?` when the error types already agree)
+#[verifier::external_body]
+proof fn axiom_reflexive_from_iteration_error<X>()
+    ensures
+        <IterationError<X> as FromSpec<IterationError<X>>>::obeys_from_spec(),
+        forall|e: IterationError<X>| #[trigger] <IterationError<X> as FromSpec<IterationError<X>>>::from_spec(e) == e,
+{
+}
